@@ -110,7 +110,7 @@ class C17(F.PropCheck):
     rule = ('CONNECT: user-name lengths 0..254 x password lengths 0..maximum storable+ (split across Password field and the tail behind the user name, '
             'stale bytes after terminators) x auth on/off x TLS x prefix lengths 0..49; parser: topics around <prefix>/channels/<N>/<command> '
             '(N 0..99999 and 10-40 digit numbers (k*2^32+n, around 2^31/2^32/2^63/2^64, long leading zeros), signs, dots, empty, wrong/missing separator after the prefix, missing/extra segments, prefix variants) x '
-            'payload variants (case, truncation, numbers with sign/fraction); rendering: 64-bit values (boundaries, powers of ten, random) x precision 0..20 x signedness; '
+            'payload variants (case, truncation, numbers with sign/fraction, every single-byte substitution 0x00..0xFF at every position of every keyword; byte substitutions in the command segment); rendering: 64-bit values (boundaries, powers of ten, random) x precision 0..20 x signedness; '
             'distinct by sha256 of the event text')
 
     def build_impl(self): return C16M.build_mqtt('c17')
@@ -150,6 +150,9 @@ class C17(F.PropCheck):
             if cmd == b'set/on': pay = rng.choice(list(SET_ON) + [b'YES', b'True', b'fAlSe', b'No', b'2', b'on', b'tru', b'truee', b'', b'1 ', b'ye', b'yess'])
             elif cmd == b'execute_action': pay = rng.choice(list(EXEC_ON) + list(EXEC_RS) + [b'TURN_ON', b'Toggle', b'SHUT', b'Stop', b'turn_o', b'turn_onn', b'shutt', b'calibrat', b'', b'reveal '])
             else: pay = rng.choice([b'0', b'1', b'50', b'100', b'101', b'255', b'256', b'-1', b'-0', b'-', b'50.5', b'50.', b'.5', b'1e1', b'', b' 5', b'5 ', b'099', b'0100', b'100.9', b'99.99', b'1000', b'abc', str(rng.randrange(0, 300)).encode()])
+            if pay and rng.random() < 0.25:
+                j = rng.randrange(len(pay)); x = rng.choice([pay[j] ^ 0x20, pay[j] | 0x20, pay[j] & 0xDF, 0x7F, 0x5F, 0x00, 0x20, 0x40, 0x60, 0x5B, 0x7B, rng.randrange(256)])
+                pay = pay[:j] + bytes([x]) + pay[j + 1:]
             sep = b'/'; chs = b'channels/'; sl2 = b'/'
             m = rng.random()
             if m < 0.5: pass
@@ -195,6 +198,26 @@ class C17(F.PropCheck):
             for ch in range(base, base + 50):
                 t = pfx + b'/channels/' + str(ch).encode() + b'/set/on'; evs.append(('SETON', [len(t)], t + b'1'))
             cases.append(F.Case('ch%d' % base, evs, ['exhaustive-channel']))
+        # every single-byte substitution 0x00..0xFF at every position of every payload keyword, truncated/extended words
+        for (cmd, words, rs) in ((b'set/on', list(SET_ON), False), (b'execute_action', list(EXEC_ON), False), (b'execute_action', list(EXEC_RS), True)):
+            for w in words:
+                t = pfx + b'/channels/5/' + cmd
+                evs = [('SETPFX', [], pfx)]
+                for pos in range(len(w)):
+                    for x in range(256):
+                        evs.append(('RSFB' if rs else 'SETON', [len(t)], t + w[:pos] + bytes([x]) + w[pos + 1:]))
+                for m in (w[:-1], w[1:], w + b'\0', w + b' ', w + w[-1:], b' ' + w, w.upper(), w.title(), w.swapcase(), w[:1].upper() + w[1:]):
+                    evs.append(('RSFB' if rs else 'SETON', [len(t)], t + m))
+                cases.append(F.Case('kw_%s_%s%s' % (cmd.decode().replace('/', '-'), w.decode(), '_rs' if rs else ''), evs, ['exhaustive-keyword-bytes']))
+        # substitutions in the command segment of the topic (compared exactly, no case folding)
+        for (cmd, pay, rs) in ((b'set/on', b'1', False), (b'execute_action', b'toggle', False), (b'execute_action', b'stop', True),
+                               (b'set/closing_percentage', b'50', True), (b'set/tilt', b'50', True)):
+            evs = [('SETPFX', [], pfx)]
+            for pos in range(len(cmd)):
+                for x in sorted(set([cmd[pos] ^ 0x20, cmd[pos] | 0x20, cmd[pos] & 0xDF, 0, 0x20, 0x5F, 0x7F, 0xFF, cmd[pos] ^ 1, cmd[pos] ^ 0x80] + list(range(0x40, 0x80)))):
+                    t = pfx + b'/channels/5/' + cmd[:pos] + bytes([x]) + cmd[pos + 1:]
+                    evs.append(('RSFB' if rs else 'SETON', [len(t)], t + pay))
+            cases.append(F.Case('cmdseg_%s%s' % (cmd.decode().replace('/', '-'), '_rs' if rs else ''), evs, ['exhaustive-command-bytes']))
         for i in range(0, len(LONG_CHANNELS), 25):
             evs = [('SETPFX', [], pfx)]
             for nn in LONG_CHANNELS[i:i + 25]:
